@@ -146,9 +146,9 @@ CLAIMED = {
     "C15": dict(
         text="Lean theorems over the reals about a model of quatfit.py / utilities.py written once over an arithmetic interface: a unit quaternion gives an isometry that preserves cross products (proper rotation, never a mirror image); "
         "the torsion matrix is an isometry fixing the axis for every angle; qchichange keeps all distances among moved points and to every point of the axis; the Jacobi eigenvector matrix stays orthogonal after ANY number of sweeps, "
-        "so find_coordinates always applies a proper rigid motion (placed-atom distances equal template distances); Horn's identity; exactness: if the structure is a proper rigid image of the template and the quaternion maximises the quadratic form, every template point is mapped onto its image. "
+        "so find_coordinates always applies a proper rigid motion (placed-atom distances equal template distances); Horn's identity; exactness: if the structure is a proper rigid image of the template and the quaternion maximises the quadratic form, every template point is mapped onto its image; the requested torsion: turning the moved atom about the axis by diff degrees turns the pair (cosine, sine) that utilities.dihedral computes by diff (torsion_rotates), the value dihedral returns has that cosine and sine (dihedral_value), so set_dihedral_angle leaves the torsion at the requested angle (torsion_set) and after ANY number of successive changes through the re-measured cache at the last requested angle (torsion_sequence). "
         "The same definitions run in Float in the driver: every sampled find_coordinates answer is bit-identical to CPython. Oracle: the property's tolerances (1e-6 A, 0.05 degrees) on the real routines incl. set_dihedral_angle and rotate_tetrahedral on real residues.",
-        note="not proved, validated numerically on every sample: that 30 Jacobi sweeps reach the maximiser; floating-point rounding; the measured torsion after set_dihedral_angle. Partial on exactly those.",
+        note="not proved, validated numerically on every sample: that 30 Jacobi sweeps reach the maximiser; floating-point rounding; requested angles within 0.03 degrees of 0 or 180 (where utilities.dihedral snaps its result). Partial on exactly those.",
         ref="DESIGN.md §4 C15",
     ),
     "C17": dict(
